@@ -86,7 +86,10 @@ def gen_history(rng: random.Random, max_ops: int = 8, max_rows: int = 20, with_b
             fitted_any = True
         elif r < 0.58 and not user_labels:
             ops.append({"op": "refine", "n_largest": rng.choice([0, 1, 1, 2, 3, -1]),
-                        "initial_mol": 0})
+                        "initial_mol": 0,
+                        # (a SEQUENCE of files re-inserts the split members in sorted-label order and is
+                        # modelled separately: Model/Multiround.refine_groups_seq, suites multiround-*)
+                        "xform": rng.choice(["array", "array", "path", "packed-array", "packed-path"])})
         elif r < 0.72:
             ops.append({"op": "recluster", "iters": rng.choice([1, 1, 2, 3]),
                         "extra": rng.choice([0.0, 0.0, 0.05, -0.1]),
@@ -213,8 +216,29 @@ def apply_op(bb, op, data, nf):
             for l, r in data.items():
                 X[l] = r
             extra["X"] = X.tolist()
-            bb.refine_inplace(X, initial_mol=op["initial_mol"], input_is_packed=False,
-                              n_largest=op["n_largest"])
+            xform = op.get("xform", "array")
+            if xform == "array":
+                bb.refine_inplace(X, initial_mol=op["initial_mol"], input_is_packed=False,
+                                  n_largest=op["n_largest"])
+            else:
+                # the same data handed over as a .npy path, a sequence of two .npy paths, packed or not
+                import tempfile
+                from pathlib import Path
+                with tempfile.TemporaryDirectory(prefix="verif_refine_") as tmp:
+                    packed = xform.startswith("packed")
+                    Y = np.packbits(X, axis=1) if packed else X
+                    kw = dict(input_is_packed=packed, n_largest=op["n_largest"], initial_mol=op["initial_mol"])
+                    if xform.endswith("path"):
+                        np.save(Path(tmp) / "x.npy", Y)
+                        arg = Path(tmp) / "x.npy"
+                    elif xform.endswith("seq"):
+                        cut = max(1, len(Y) // 3)
+                        np.save(Path(tmp) / "x0.npy", Y[:cut])
+                        np.save(Path(tmp) / "x1.npy", Y[cut:])
+                        arg = [Path(tmp) / "x0.npy", Path(tmp) / "x1.npy"] if len(Y) > cut else [Path(tmp) / "x0.npy"]
+                    else:
+                        arg = Y
+                    bb.refine_inplace(arg, **kw)
         elif kind == "recluster":
             perms = []
             real_shuffle = random.shuffle
